@@ -239,8 +239,11 @@ func runDB(in *mbt.Input, res *mbt.Result) {
 		}
 		n, behind := 0, 0
 		active := map[string]bool{} // keys in the active memtable (every entry is 20 bytes)
+		// the harness lost track of the background tasks (its "settled" test reads goroutine stacks and has a
+		// deadline): the run is abandoned and counted as drift, it says nothing about the property
 		stuck := func(si int, what string) {
-			res.Errors = append(res.Errors, fmt.Sprintf("db run %d step %d: %s; schedule %v", ri, si, what, log))
+			res.Driftf("db run %d step %d: %s; schedule %v", ri, si, what, log)
+			res.Count("db_runs_abandoned", 1)
 			dead = true
 		}
 		for si := 0; si < steps && !dead; si++ {
